@@ -2,7 +2,8 @@
   Helper lemmas about the reader machine alone (C18, catch-up half of C03).
 -/
 import ClockBound.Model.SeqlockSys
-namespace ClockBound.SL
+namespace ClockBound.SLR
+open ClockBound ClockBound.SL
 
 /-! ### C18: the measure argument
 
@@ -522,18 +523,18 @@ theorem fresh_same_generation (a : Ann) (log : Log) (r : Reader)
 
 /-! ### C03: reachable views are consistent with the log -/
 
-theorem atLoc_append_lt (log : Log) (m : Msg) (x : Loc) (k : Nat) (hk : k < log.length) :
+theorem atLoc_append_lt (log : Log) (m : SL.Msg) (x : Loc) (k : Nat) (hk : k < log.length) :
     atLoc (log ++ [m]) x k = atLoc log x k := by
   unfold atLoc
   rw [List.getElem?_append_left hk]
 
-theorem atLoc_append_last (log : Log) (m : Msg) (x : Loc) :
+theorem atLoc_append_last (log : Log) (m : SL.Msg) (x : Loc) :
     atLoc (log ++ [m]) x log.length = (m.loc == x) := by
   unfold atLoc
   simp
 
 /-- the newest message at `y` after one more message was appended -/
-theorem lastBefore_append (log : Log) (m : Msg) (y : Loc) :
+theorem lastBefore_append (log : Log) (m : SL.Msg) (y : Loc) :
     lastBefore (log ++ [m]) y (log ++ [m]).length =
       if m.loc = y then some log.length else lastBefore log y log.length := by
   have hlen : (log ++ [m]).length = log.length + 1 := by simp
@@ -571,7 +572,7 @@ structure SysInv (s : Sys) : Prop where
   carried : ∀ m ∈ s.log, m.carried ≤ s.log.length
   relFence : s.w.relFence ≤ s.log.length
 
-theorem viewOk_append {log : Log} {v : View} (m : Msg) (h : ViewOk log v)
+theorem viewOk_append {log : Log} {v : View} (m : SL.Msg) (h : ViewOk log v)
     (hl : ∀ x, v.cohOf x ≤ log.length) : ViewOk (log ++ [m]) v := by
   obtain ⟨h1, h2, h3⟩ := h
   have hlen : (log ++ [m]).length = log.length + 1 := by simp
@@ -741,4 +742,4 @@ theorem sysInv_reachable {a : Ann} {s0 s : Sys} (h0 : SysInv s0) (hr : Reachable
   | refl => exact h0
   | step _ hst ih => exact sysInv_step ih hst
 
-end ClockBound.SL
+end ClockBound.SLR
